@@ -457,7 +457,7 @@ func (c06) Exec(sci interface{}, env *Env) *Violation {
 	return nil
 }
 
-func (c06) Shrink(sci interface{}) []interface{} {
+func (c06) Shrink(sci interface{}, _ *Violation) []interface{} {
 	p := c06{}
 	sc := sci.(*C06Sc)
 	var out []interface{}
